@@ -268,6 +268,8 @@ class Extractor:
         self.methods = {f.name: f for f in self.cls.body if isinstance(f, ast.FunctionDef)}
         self._glob_memo = {}
         self._escaped = {}
+        self._fresh = set()
+        self._aliased = None
 
     # ---- global state reachable from a function / class of the package (Glob atoms only) -------------------
     def globs_of(self, mod: Module, node, depth=0):
@@ -330,6 +332,142 @@ class Extractor:
         self._glob_memo[key] = out
         return out
 
+    # ---- attributes that may hold the CALLER's object: bound un-copied from a constructor parameter / keyword value in __init__
+    #      (or a helper it calls) and never re-bound there through a copying expression of themselves -----------------------------
+    def _init_reachable(self):
+        seen, todo = [], ['__init__']
+        while todo:
+            m = todo.pop()
+            if m in seen or m not in self.methods:
+                continue
+            seen.append(m)
+            for n in ast.walk(self.methods[m]):
+                if isinstance(n, ast.Call) and _self_attr(n.func) and n.func.attr in self.methods:
+                    todo.append(n.func.attr)
+        return seen
+
+    def _simple_stmts(self, body):
+        """all simple statements below `body`, with `for item in [constants]` unrolled"""
+        for st in body:
+            if isinstance(st, ast.For) and _const_iter(st.iter) is not None and isinstance(st.target, ast.Name):
+                for c in _const_iter(st.iter):
+                    yield from self._simple_stmts([_Subst(st.target.id, c).visit(_copy(b)) for b in st.body])
+                continue
+            if isinstance(st, (ast.FunctionDef, ast.ClassDef)):
+                continue
+            sub = [getattr(st, f, None) for f in ('body', 'orelse', 'finalbody')]
+            if any(isinstance(x, list) for x in sub):
+                for x in sub:
+                    if isinstance(x, list):
+                        yield from self._simple_stmts(x)
+                for h in getattr(st, 'handlers', []):
+                    yield from self._simple_stmts(h.body)
+            else:
+                yield st
+
+    def aliased_attrs(self):
+        if self._aliased is not None:
+            return self._aliased
+        uncopied, copied = set(), set()
+        for m in self._init_reachable():
+            fn = self.methods[m]
+            a = fn.args
+            owned = {x.arg for x in a.posonlyargs + a.args + a.kwonlyargs if x.arg not in ('self', 'cls')}
+            kwp = a.kwarg.arg if a.kwarg else None
+
+            def caller_owned(v):
+                if v is None:
+                    return False
+                if any(nm in owned for nm in _bare(v)):
+                    return True
+                if isinstance(v, ast.IfExp):
+                    return caller_owned(v.body) or caller_owned(v.orelse)
+                if kwp and isinstance(v, ast.Call) and isinstance(v.func, ast.Attribute) and v.func.attr in ('get', 'pop', 'setdefault') \
+                        and isinstance(v.func.value, ast.Name) and v.func.value.id == kwp:
+                    return True
+                if kwp and isinstance(v, ast.Subscript) and isinstance(v.value, ast.Name) and v.value.id == kwp:
+                    return True
+                return False
+
+            def mentions(v, x):
+                for n in ast.walk(v):
+                    if _self_attr(n) and n.attr == x:
+                        return True
+                    if isinstance(n, ast.Call):
+                        d = _dyn_attr(n)
+                        if d and d[0] == 'get' and d[1] == x:
+                            return True
+                return False
+
+            def is_bare_self(v, x):
+                if _self_attr(v) and v.attr == x:
+                    return True
+                if isinstance(v, ast.Call):
+                    d = _dyn_attr(v)
+                    return bool(d and d[0] == 'get' and d[1] == x)
+                return False
+            for _ in range(2):                              # locals bound to caller-owned values
+                for st in self._simple_stmts(fn.body):
+                    if isinstance(st, (ast.Assign, ast.AnnAssign)) and st.value is not None:
+                        for t in (st.targets if isinstance(st, ast.Assign) else [st.target]):
+                            if isinstance(t, ast.Name) and caller_owned(st.value):
+                                owned.add(t.id)
+            for st in self._simple_stmts(fn.body):
+                pairs = []
+                if isinstance(st, (ast.Assign, ast.AnnAssign)) and st.value is not None:
+                    for t in (st.targets if isinstance(st, ast.Assign) else [st.target]):
+                        if _self_attr(t):
+                            pairs.append((t.attr, st.value))
+                elif isinstance(st, ast.Expr) and isinstance(st.value, ast.Call):
+                    d = _dyn_attr(st.value)
+                    if d and d[0] == 'set' and d[2]:
+                        pairs.append((d[1], d[2][0]))
+                for x, v in pairs:
+                    if caller_owned(v):
+                        uncopied.add(x)
+                    elif mentions(v, x) and not is_bare_self(v, x) and not _bare(v):
+                        copied.add(x)
+        self._aliased = uncopied - copied
+        return self._aliased
+
+    def kwarg_names(self):
+        """constructor parameters and the keyword names __init__ (and its helpers) look up"""
+        out = []
+        for m in self._init_reachable():
+            fn = self.methods[m]
+            if m == '__init__':
+                out += [x.arg for x in fn.args.posonlyargs + fn.args.args + fn.args.kwonlyargs if x.arg != 'self']
+            kwp = fn.args.kwarg.arg if fn.args.kwarg else None
+            if kwp:
+                for n in ast.walk(fn):
+                    if isinstance(n, ast.Call) and isinstance(n.func, ast.Attribute) and n.func.attr in ('get', 'pop') and isinstance(n.func.value, ast.Name) \
+                            and n.func.value.id == kwp and n.args and isinstance(n.args[0], ast.Constant):
+                        out.append(n.args[0].value)
+        return [x for i, x in enumerate(out) if x not in out[:i]]
+
+    def _inplace_attr(self, node):
+        """node is updated in place: Glob atom when its base is an attribute that may hold the caller's object and has not been
+        re-bound to a fresh value earlier in this method (on every path)"""
+        b = node
+        while isinstance(b, (ast.Subscript, ast.Attribute)) and not _self_attr(b):
+            b = b.value
+        if _self_attr(b) and b.attr in self.aliased_attrs() and b.attr not in self._fresh:
+            return [('Glob', f'alias:{b.attr}')]
+        return []
+
+    @staticmethod
+    def _fresh_value(v):
+        if v is None or _bare(v) or _self_attr(v):
+            return False
+        if isinstance(v, ast.Call):
+            f = v.func
+            if isinstance(f, ast.Attribute) and f.attr in ('get', 'pop', 'setdefault', '__getattribute__'):
+                return False
+            if isinstance(f, ast.Name) and f.id == 'getattr':
+                return False
+            return True
+        return isinstance(v, (ast.BinOp, ast.UnaryOp, ast.Constant, ast.List, ast.Tuple, ast.ListComp, ast.Dict, ast.Compare))
+
     # ---- expression -> list of commands, in evaluation order (approximately) -------------------------------
     def expr(self, e, ltypes):
         if e is None:
@@ -348,9 +486,15 @@ class Extractor:
                 out += self.expr(a.value if isinstance(a, ast.Starred) else a, ltypes)
             for k in e.keywords:
                 out += self.expr(k.value, ltypes)
+                if k.arg == 'out':
+                    out += self._inplace_attr(k.value)
             if _self_attr(f) and f.attr in self.methods:
                 out.append(('Call', f.attr))
                 return out
+            if isinstance(f, ast.Attribute) and f.attr in MUTATORS:
+                out += self._inplace_attr(f.value)
+            if isinstance(f, ast.Attribute) and f.attr in NP_INPLACE_FIRST and e.args:
+                out += self._inplace_attr(e.args[0])
             out += self.expr(f, ltypes)
             if isinstance(f, ast.Name):
                 r = self.mod.resolve(f.id)
@@ -397,7 +541,7 @@ class Extractor:
     def target(self, t, ltypes, aug=False):
         """commands for storing into target t"""
         if _self_attr(t):
-            return ([('Rd', t.attr)] if aug else []) + [('Wr', t.attr)]
+            return ([('Rd', t.attr)] + self._inplace_attr(t) if aug else []) + [('Wr', t.attr)]
         if isinstance(t, (ast.Tuple, ast.List)):
             out = []
             for x in t.elts:
@@ -414,7 +558,7 @@ class Extractor:
             while isinstance(base, (ast.Subscript, ast.Attribute)) and not _self_attr(base):
                 base = base.value
             if _self_attr(base):
-                return out + [('Rd', base.attr), ('Wr', base.attr)]
+                return out + [('Rd', base.attr)] + self._inplace_attr(base) + [('Wr', base.attr)]
             return out + self.expr(t.value, ltypes)
         return []
 
@@ -436,9 +580,14 @@ class Extractor:
             c = E(s.value)
             for t in s.targets:
                 c += self.target(t, ltypes)
+                self._rebind(t, s.value)
             return seq(c)
         if isinstance(s, ast.AnnAssign):
-            return seq(E(s.value) + self.target(s.target, ltypes)) if s.value is not None else ('Skip',)
+            if s.value is None:
+                return ('Skip',)
+            c = seq(E(s.value) + self.target(s.target, ltypes))
+            self._rebind(s.target, s.value)
+            return c
         if isinstance(s, ast.AugAssign):
             return seq(E(s.value) + self.target(s.target, ltypes, aug=True))
         if isinstance(s, (ast.Expr, ast.Return)):
@@ -453,7 +602,33 @@ class Extractor:
                 c += self.target(t, ltypes)
             return seq(c)
         if isinstance(s, ast.If):
-            return seq(E(s.test) + [('If', self.stmts(s.body, ltypes), self.stmts(s.orelse, ltypes))])
+            tst = E(s.test)
+            f0 = set(self._fresh)
+            b1 = self.stmts(s.body, ltypes)
+            f1, self._fresh = self._fresh, set(f0)
+            b2 = self.stmts(s.orelse, ltypes)
+            self._fresh = f1 & self._fresh
+            return seq(tst + [('If', b1, b2)])
+        if isinstance(s, (ast.While, ast.For, ast.Try, ast.With)):
+            f0 = set(self._fresh)
+            c = self._compound(s, ltypes)
+            self._fresh = f0 & self._fresh
+            return c
+        return self._compound(s, ltypes)
+
+    def _rebind(self, t, v):
+        if _self_attr(t):
+            if self._fresh_value(v):
+                self._fresh.add(t.attr)
+            else:
+                self._fresh.discard(t.attr)
+        elif isinstance(t, (ast.Tuple, ast.List)):
+            for x in t.elts:
+                if _self_attr(x):
+                    self._fresh.discard(x.attr)
+
+    def _compound(self, s, ltypes):
+        E = lambda e: self.expr(e, ltypes)
         if isinstance(s, ast.While):
             return seq([('Loop', seq(E(s.test) + [self.stmts(s.body, ltypes)])), self.stmts(s.orelse, ltypes)])
         if isinstance(s, ast.For):
@@ -655,6 +830,20 @@ class Extractor:
     def method_cmd(self, fn):
         pre = [('Glob', f'arg:{fn.name}.{p}') for p in sorted(self.inplace_params(self.mod, fn, self.cls))]
         pre += [('Glob', f'default:{fn.name}.{p}') for p in self.shared_defaults(self.mod, fn, self.cls)]
+        # the override idiom  p = self.X if p is None else p : from then on the method must use p; a second read of self.X ignores
+        # the caller's per-call value (fail closed: an atom no configuration list contains)
+        for st in fn.body:
+            if isinstance(st, ast.Assign) and len(st.targets) == 1 and isinstance(st.targets[0], ast.Name) and isinstance(st.value, ast.IfExp):
+                v, pn = st.value, st.targets[0].id
+                tst = v.test
+                isnone = isinstance(tst, ast.Compare) and isinstance(tst.left, ast.Name) and tst.left.id == pn and len(tst.ops) == 1 \
+                    and isinstance(tst.ops[0], ast.Is) and isinstance(tst.comparators[0], ast.Constant) and tst.comparators[0].value is None
+                if isnone and _self_attr(v.body) and isinstance(v.orelse, ast.Name) and v.orelse.id == pn:
+                    X = v.body.attr
+                    others = [n for other in fn.body if other is not st for n in ast.walk(other) if _self_attr(n) and n.attr == X]
+                    if others:
+                        pre.append(('Rd', f'shadowed:{X}'))
+        self._fresh = set()
         return seq(pre + [self.stmts(fn.body, {})])
 
     def table(self):
@@ -981,7 +1170,8 @@ def extract(repo, relpath, clsname, updates, carried):
     if scratch:
         notes.append('write-only scratch attributes treated as carried: ' + ', '.join(scratch))
     carried = list(carried) + [x for x in scratch if x not in carried]
-    return {'name': clsname, 'file': relpath, 'methods': table, 'updates': [u for u in updates if u in ex.methods],
+    notes.append('may hold caller objects: ' + ', '.join(sorted(ex.aliased_attrs())))
+    return {'name': clsname, 'file': relpath, 'kwargs': ex.kwarg_names(), 'aliased': sorted(ex.aliased_attrs()), 'methods': table, 'updates': [u for u in updates if u in ex.methods],
             'missing_updates': missing, 'dparams': dparams, 'init': deps, 'carried': list(carried), 'loops': loops,
             'badloops': bad + len(missing), 'notes': notes, 'py_data_attrs': sorted(T)}
 
